@@ -31,6 +31,7 @@ func runC11(w *World, r *Report) {
 	c11ModePlumbing(w, r)
 	c11ErrorAtGate(w, r)
 	c11SysUses(w, r)
+	c11WriteErrorsPropagated(w, r)
 	c11Finalized(w, r)
 	c11ReadersNeverWrite(w, r)
 	c11ConstructorsAsk(w, r)
@@ -916,6 +917,56 @@ func c11SysUses(w *World, r *Report) {
 			}
 			r.Check(why == "", "C11-a", fnName(fn), "Sys() result used for metadata only #"+ordinal(fn, c), w.relFile(c.Pos()),
 				"only Fd/Sync/Stat/Name and in-module helpers with the same restriction", "the raw *os.File from Sys() escapes the Writable gate: "+why)
+		}
+	}
+}
+
+// ---- C11-d (extended): errors of writing helpers ---------------------------------------------------
+
+// c11WriteErrorsPropagated: a mutator reports the gate's refusal only if every call on the way propagates
+// it. For every call in the library to an in-module function that returns an error and can reach
+// Storage.Writable(), the error result must be tested (non-nil edge returns an error) or returned.
+func c11WriteErrorsPropagated(w *World, r *Report) {
+	reachesGate := map[*ssa.Function]bool{}
+	for _, fn := range w.ModFns {
+		if w.libraryFn(fn) && len(calls(fn, false, isWritableCall)) > 0 {
+			reachesGate[fn] = true
+		}
+	}
+	for changed := true; changed; {
+		changed = false
+		for _, fn := range w.ModFns {
+			if reachesGate[fn] || !w.libraryFn(fn) {
+				continue
+			}
+			for _, c := range calls(fn, false, func(ssa.CallInstruction) bool { return true }) {
+				if g := c.Common().StaticCallee(); g != nil && reachesGate[g] {
+					reachesGate[fn] = true
+					changed = true
+				}
+			}
+		}
+	}
+	for _, fn := range w.ModFns {
+		if !w.libraryFn(fn) || errResultIndex(fn.Signature) < 0 {
+			// a caller without an error result (e.g. Label() string) cannot propagate; C11-f covers readers
+			continue
+		}
+		for _, cc := range calls(fn, false, func(c ssa.CallInstruction) bool {
+			g := c.Common().StaticCallee()
+			return g != nil && reachesGate[g] && errResultIndex(g.Signature) >= 0
+		}) {
+			g := cc.Common().StaticCallee()
+			c, ok := cc.(*ssa.Call)
+			if !ok {
+				if _, isDefer := cc.(*ssa.Defer); isDefer {
+					r.Note("deferred call of writing helper %s in %s (error cannot be propagated)", fnName(g), fnName(fn))
+				}
+				continue
+			}
+			ok2, why := errorReachesErrorReturn(c)
+			r.Check(ok2, "C11-d", fnName(fn), "error of writing helper "+g.Name()+" #"+ordinal(fn, c), w.relFile(c.Pos()), why,
+				"the error of "+fnName(g)+" (which asks Storage.Writable()) is dropped: on a read-only backend the mutator reports success: "+why)
 		}
 	}
 }
